@@ -379,24 +379,33 @@ def default_replay(mod, ctx, rec):
         raise HarnessError("replay file names unknown harness %r" % rec.get("harness"))
     got, r = ctx.replay_harness(exes[rec["harness"]], rec["spec"])
     sys.stdout.write(r.stdout[-4000:])
+    rc = rec.get("replay_cmd")
+    if rc and not any(k == rec["key"] for k, _ in got):
+        # recorded as "fails only within its part": run the part again with the harness built from the current tree
+        cmd = [exes[rec["harness"]]] + list(rc["cmd"][1:])
+        keys = rerun_part_keys(cmd, rc.get("env"))
+        print("replay of the part: %s -> %s" % (" ".join(cmd[1:]), keys[:5]))
+        if rec["key"] in keys or (rc.get("match") == "any" and keys):
+            got = list(got) + [(rec["key"], "the part fails again: " + ", ".join(keys[:3]))]
     return got
 
 
-def rerun_part_shows(ctx, v):
-    """Run the harness invocation that reported v once more (same arguments and shard); True if it reports the same class key."""
+def rerun_part_keys(cmd, env=None):
+    """Run a recorded harness invocation once more (same arguments and shard); returns the class keys of the violations it reports."""
     envd = dict(os.environ)
     envd.setdefault("ASAN_OPTIONS", "detect_leaks=0:abort_on_error=0:allocator_may_return_null=1")
-    if v.get("env"):
-        envd.update(v["env"])
+    if env:
+        envd.update(env)
     try:
-        r = subprocess.run(v["cmd"], stdout=subprocess.PIPE, stderr=subprocess.DEVNULL, text=True, errors="replace", env=envd, timeout=900)
+        r = subprocess.run(cmd, stdout=subprocess.PIPE, stderr=subprocess.DEVNULL, text=True, errors="replace", env=envd, timeout=900)
     except subprocess.TimeoutExpired:
-        return False
+        return []
+    keys = []
     for line in r.stdout.splitlines():
         parts = line.split("\t")
-        if parts[0] == "VIOL" and len(parts) > 1 and parts[1] == v["key"]:
-            return True
-    return False
+        if parts[0] == "VIOL" and len(parts) > 1 and parts[1] not in keys:
+            keys.append(parts[1])
+    return keys
 
 
 def finish(ctx, replay_fn=None):
@@ -424,12 +433,28 @@ def finish(ctx, replay_fn=None):
                 # wrong outputs from run to run). It is a reproduced failure of this case: report it under the key the replay gave.
                 v["detail"] = "[first seen as %s; the replay of the same case failed as %s] %s" % (v["key"], keys[0], v["detail"])
                 v["key"] = keys[0]
-            elif v["key"] not in keys and v.get("cmd") and rerun_part_shows(ctx, v):
-                # Not reproducible in isolation, but the same enumeration part run again reports the same class: the failure depends
-                # on the cases executed before it in the same process (state kept between calls by the code under test - a cache,
-                # errno, a static buffer). That is a deterministic failure of the tree; its replay is the part's command line.
-                v["detail"] = "[fails only after the preceding cases of the same run, not in isolation; reproduced by running `%s` again] %s" % (
-                    " ".join(os.path.basename(x) if x.startswith("/") else x for x in v["cmd"]), v["detail"])
+            elif v["key"] not in keys and v.get("cmd"):
+                again = [k for k in rerun_part_keys(v["cmd"], v.get("env")) if k not in known]
+                if not again and "--shard" in v["cmd"]:
+                    # symptoms that vary from run to run also move between shards: run the whole part in one process
+                    i = v["cmd"].index("--shard")
+                    v["cmd"] = v["cmd"][:i] + v["cmd"][i + 2:]
+                    again = [k for k in rerun_part_keys(v["cmd"], v.get("env")) if k not in known]
+                shown = " ".join(os.path.basename(x) if x.startswith("/") else x for x in v["cmd"])
+                if v["key"] in again:
+                    # Not reproducible in isolation, but the same enumeration part run again reports the same class: the failure depends
+                    # on the cases executed before it in the same process (state kept between calls by the code under test - a cache,
+                    # errno, a static buffer). That is a deterministic failure of the tree; its replay is the part's command line.
+                    v["detail"] = "[fails only after the preceding cases of the same run, not in isolation; reproduced by running `%s` again] %s" % (shown, v["detail"])
+                    v["replay_cmd"] = {"cmd": v["cmd"], "env": v.get("env"), "match": "same"}
+                elif again:
+                    # The part fails again, every time with other symptoms (the code under test reads indeterminate or freed memory, or
+                    # races): the failure of the part is reproducible, the individual case is not. Reported once under the first key.
+                    v["detail"] = "[symptoms vary from run to run: running `%s` again failed as %s; the part fails every time, the single case does not replay] %s" % (shown, again[0], v["detail"])
+                    v["replay_cmd"] = {"cmd": v["cmd"], "env": v.get("env"), "match": "any"}
+                else:
+                    raise HarnessError("violation %s did not reproduce on replay (spec=%s) nor when its part was run again - harness nondeterminism; "
+                                       "replay printed %r\n%s" % (v["key"], v["spec"], keys, r.stderr[-2000:]))
             elif v["key"] not in keys:
                 raise HarnessError("violation %s did not reproduce on replay (spec=%s) - harness nondeterminism; "
                                    "replay printed %r\n%s" % (v["key"], v["spec"], keys, r.stderr[-2000:]))
@@ -476,7 +501,7 @@ def finish(ctx, replay_fn=None):
             with open(path, "w") as fh:
                 json.dump({"property": ctx.prop, "key": v["key"], "detail": v["detail"],
                            "harness": os.path.basename(v["harness"]).rsplit("-", 1)[0].split("-", 1)[-1] if v.get("harness") else None,
-                           "spec": v["spec"], "count": v["count"]}, fh, indent=1)
+                           "spec": v["spec"], "count": v["count"], "replay_cmd": v.get("replay_cmd")}, fh, indent=1)
                 fh.write("\n")
             print("VIOLATION property=%s replay=%s" % (ctx.prop, path))
             print("  key=%s (%d case(s))\n  detail=%s" % (v["key"], v["count"], v["detail"][:1500]))
